@@ -92,6 +92,7 @@ type Contract struct {
 	Loops           map[string]*LoopSpec
 	CallAsserts     map[string][]Clause
 	CallAssumes     map[string][]Clause
+	CallEstablishes map[string][]Clause
 	GhostAt         map[string][]GhostAssign
 	Lets            []GhostAssign // let name = expr (evaluated at entry)
 	Flags           map[string]bool
@@ -712,6 +713,12 @@ func (cs *ContractSet) ParseFile(path, pkgPath string) error {
 					cur.CallInvs[id] = append(cur.CallInvs[id], cs.clause(strings.TrimSpace(body[10:]), path, ll.line))
 				} else if strings.HasPrefix(body, "assume ") {
 					cur.CallAssumes[id] = append(cur.CallAssumes[id], cs.clause(strings.TrimSpace(body[7:]), path, ll.line))
+				} else if strings.HasPrefix(body, "establishes ") {
+					// stated assumption about an opaque callback: after it returned, this holds (listed in the evidence)
+					if cur.CallEstablishes == nil {
+						cur.CallEstablishes = map[string][]Clause{}
+					}
+					cur.CallEstablishes[id] = append(cur.CallEstablishes[id], cs.clause(strings.TrimSpace(body[12:]), path, ll.line))
 				} else if strings.HasPrefix(body, "modifies ") {
 					// stated assumption about an opaque callback: it changes at most these locations
 					if cur.CallMods == nil {
